@@ -584,40 +584,36 @@ def integer_p (u : F) : Bool :=
 
 /- ------------------------------------------------------------------ mul_2exp / div_2exp -/
 
+/-- the shifted data of mul_2exp.c:98-122 / div_2exp.c:104-128: `up` (n limbs) times 2^k (0 < k < 64) is n+1
+    limbs of data (`mpn_lshift` with its carry-out limb on top, or `mpn_rshift` by 64-k into rp+1 with its
+    shifted-out bits in rp[0]: identical data); `adj` = 1 iff the high limb is non-zero.  Returns (limbs kept, adj). -/
+def shiftUp (up : List Nat) (k : Nat) : List Nat × Nat :=
+  let n := up.length
+  let full := toLimbs (n + 1) (val up * 2 ^ k)
+  let adj := if topLimb full ≠ 0 then 1 else 0
+  (full.take (n + adj), adj)
+
 /-- mul_2exp.c:64-125 -/
 def mul_2exp (prec : Nat) (u : F) (e : Nat) : F :=
   if u.size = 0 then zero prec                                                    -- :75-80
-  else
-    let sg (n : Nat) : Int := if u.size ≥ 0 then n else -(n : Int)
-    if e % 64 = 0 then                                                            -- :85-97
-      let dp := top (prec + 1) u.d
-      ⟨prec, sg dp.length, u.exp + e / 64, dp⟩
-    else                                                                          -- :98-123
-      let up := top prec u.d                                                      -- :102-105
-      let n := up.length
-      let t := val up * 2 ^ (e % 64)                                              -- lshift, or rshift by 64-c into rp+1 with rp[0]=carry: same data
-      -- when truncated (:109-112) the data is n+1 limbs `[cy_low] ++ rshift` = t as n+1 limbs too
-      let full := toLimbs (n + 1) t
-      let adj := if topLimb full ≠ 0 then 1 else 0                                -- :112 / :118
-      let rd := full.take (n + adj)
-      ⟨prec, sg rd.length, u.exp + e / 64 + adj, rd⟩
+  else if e % 64 = 0 then                                                         -- :85-97
+    let dp := top (prec + 1) u.d
+    ⟨prec, if u.size ≥ 0 then dp.length else -(dp.length : Int), u.exp + (e / 64 : Nat), dp⟩
+  else                                                                            -- :98-123
+    let up := top prec u.d                                                        -- :102-105
+    let (rd, adj) := shiftUp up (e % 64)                                          -- :109-112 / :116-118
+    ⟨prec, if u.size ≥ 0 then rd.length else -(rd.length : Int), u.exp + (e / 64 : Nat) + adj, rd⟩
 
 /-- div_2exp.c:70-131 -/
 def div_2exp (prec : Nat) (u : F) (e : Nat) : F :=
   if u.size = 0 then zero prec                                                    -- :81-86
-  else
-    let sg (n : Nat) : Int := if u.size ≥ 0 then n else -(n : Int)
-    if e % 64 = 0 then                                                            -- :91-103
-      let dp := top (prec + 1) u.d
-      ⟨prec, sg dp.length, u.exp - e / 64, dp⟩
-    else                                                                          -- :104-129
-      let up := top prec u.d
-      let n := up.length
-      let t := val up * 2 ^ (64 - e % 64)                                         -- :115 / :121: n+1 limbs of data
-      let full := toLimbs (n + 1) t
-      let adj := if topLimb full ≠ 0 then 1 else 0
-      let rd := full.take (n + adj)
-      ⟨prec, sg rd.length, u.exp - e / 64 - 1 + adj, rd⟩
+  else if e % 64 = 0 then                                                         -- :91-103
+    let dp := top (prec + 1) u.d
+    ⟨prec, if u.size ≥ 0 then dp.length else -(dp.length : Int), u.exp - (e / 64 : Nat), dp⟩
+  else                                                                            -- :104-129
+    let up := top prec u.d
+    let (rd, adj) := shiftUp up (64 - e % 64)                                     -- :115-117 / :121-124
+    ⟨prec, if u.size ≥ 0 then rd.length else -(rd.length : Int), u.exp - (e / 64 : Nat) - 1 + adj, rd⟩
 
 /- ------------------------------------------------------------------ set_d -/
 
